@@ -12,6 +12,10 @@ CLAIMED['C01'] = dict(text='Coq theorems (unbounded): first-match/IndexError spe
              note='Completeness of the list lookup (all labels present implies success) and the tolerance search are validated by correspondence + oracle only, not proved; orthogonal_indexer/np.ix_ modelled by specification (np_outer).', tech='Coq proof over tabulate/get model + vm_compute correspondence', ref='3.1')
 CLAIMED['C03'] = dict(text='Coq theorems (unbounded): frame+write theorem for assignment through any index form (labels/dims/metadata/shape untouched, unaddressed cells keep their value, addressed cells receive the broadcast right-hand side), addressed set = read set (box_coord sound and, for duplicate-free lists, complete: read-back returns what was written), N-d boolean masks; cast losslessness decided on the finite kind table of the GENERATED _maybe_cast_type (re-translated from indexing.py on every run).',
              note='numpy value conversion on assignment (cell_to_kind) and broadcasting of the right-hand side are modelled by specification; with repeated positions the last written value wins (stated); inplace=False checked by operand snapshots in the harness.', tech='Coq proof + generated cast table by vm_compute + vm_compute correspondence', ref='3.3')
+CLAIMED['C07'] = dict(text='Coq theorems (unbounded): reindex_axis = axis resolution + (main pipeline | empty-axis construction); main theorem: the axis becomes exactly the new labels (pointwise numpy-equal, same order), every slice is the original slice at the found position when that position carries an equal label and the converted fill value otherwise, other axis records / name / metadata untouched; raise_error raises IndexError exactly when a label is missing; all-found (e.g. own labels) = pure positional take for any method; NaN fill promotes int to float (generated cast table).',
+             note='method=left/right neighbour choice (np.searchsorted on the argsorted labels) and reindex_like are validated by correspondence only; that locate_many_raw finds every present label (completeness) is not proved, so the theorem is stated relative to the positions it returns.', tech='Coq proof + vm_compute correspondence', ref='3.7')
+CLAIMED['C06'] = dict(text='Coq theorems (unbounded): Axis.union label set = set union with each label once for all five branches of the algorithm (incl. sorted merge via np.union1d model and concatenate+isin), sorted-merge branch strictly ascending, Axis.intersection = set intersection in the first axis order; one alignment step sets exactly the common labels on the named dimension and touches nothing else; by induction over the list of common axes every output carries the common labels on every shared dimension (identical axes), unaligned dimensions/metadata/well-formedness preserved; data clause is the C07 theorem for each step. _get_cast_kind is GENERATED.',
+             note='That the n-ary fold _common_axis is the n-ary union, the direction clause for the concatenate branch, sort=True and Dataset inputs are validated by correspondence + oracle; inputs-unchanged is checked by operand snapshots (functional model).', tech='Coq proof + generated cast-kind table + vm_compute correspondence', ref='3.6')
 NOT_YET = {}
 ALL = ['C%02d' % i for i in range(1, 21)]
 def main():
